@@ -118,6 +118,9 @@ class Ctx:
               "assumptions": self.assumptions, "wall_s": round(wall, 2), "violations": len(self.violations)}
         (VERIF / "evidence").mkdir(exist_ok=True)
         path = VERIF / "evidence" / (self.pid + ".json")
+        if os.environ.get("VERIF_NO_EVIDENCE"):   # self-test runs against a modified copy: keep the real evidence
+            path = VERIF / ".work" / ("evidence-%s-%d.json" % (self.pid, os.getpid()))
+            path.parent.mkdir(exist_ok=True)
         path.write_text(json.dumps(ev, indent=1, default=repr) + "\n")
         validate_evidence(path)
         print("%s tier=%s seed=%d: states=%d transitions=%d bound=%d evaluations=%d nontrivial=%d violations=%d "
